@@ -738,7 +738,7 @@ class Speller:
                 elif r < 0.7:
                     out.append('&')
                 elif r < 0.85:
-                    out.append("'n'")
+                    out.append("'n'" if self.rng.random() < 0.7 else "'N'")
                 else:
                     out.append(self.kw('And'))
             out += self.expr(e)
@@ -907,13 +907,13 @@ class Speller:
 
     def is_word_(self, toks):
         """`is` after the given tokens: a keyword alias, or — when the preceding token is a word — the
-        apostrophe forms 's / 're (any case after a word, lower case after a number or string)"""
+        apostrophe forms 's / 're (in any letter case)"""
         last = toks[-1]
         if self.aliases and self.rng.random() < 0.25:
             if last[-1].isalpha():
                 return [self.rng.choice(["'s", "'re", "'S", "'RE", "'Re", "'s", "'re"])]
             if last[-1].isdigit() or last[-1] == '"':
-                return [self.rng.choice(["'s", "'re"])]
+                return [self.rng.choice(["'s", "'re", "'S", "'RE", "'Re"])]      # (any case since the repair D18)
         return [self.kw('Is')]
 
     def gap(self, a, b):
